@@ -132,7 +132,8 @@ CHECKS = {
         "processes and parallelisation settings",
         RUNS + "Groups of 4 runs of one generated configuration that differ "
         "only in pool / chunk-size / parallel-prior settings (real fork "
-        "pools), plus a repeat in the same process; nested samples, "
+        "pools) and in the string-hash seed of their process, plus a repeat "
+        "in the same process; nested samples, "
         "evidence, weights and evaluation counts must be bit-identical. "
         "Quick 8 groups, thorough 60.",
         "Models with exactly rounded arithmetic; fork start method.",
@@ -144,7 +145,8 @@ CHECKS = {
         "run / run-again / resume-after-finish histories; per-iteration "
         "criterion monitor with independent recomputation",
         RUNS + "The compared value is recorded after every iteration and "
-        "recomputed independently; the stop iteration must be the first one "
+        "recomputed independently of the likelihood's magnitude "
+        "(log-likelihood offsets are generated); the stop iteration must be the first one "
         "the rule allows; history must report the compared values; digests "
         "before/after a second run and a resume from the final checkpoint "
         "must be equal with no likelihood evaluation. Quick 24 histories, "
@@ -172,13 +174,16 @@ CHECKS = {
         "passive pool monitor + likelihood call log on generated real runs; "
         "Hypothesis-generated train/populate histories on directly driven "
         "proposals; two-sample tests against brute-force prior-in-contour "
-        "sampling",
+        "sampling; metamorphic rank test of marginalised densities",
         RUNS + "Every pool population and draw of every proposal class is "
         "checked (bounds, logP/logL == model, size, index permutation, "
         "latent contour), every likelihood argument must lie in the prior "
         "support; direct-drive histories re-train and re-populate with "
         "changing contours; the distributional part compares 12000-point "
-        "pools with prior-in-contour references (chi-square / KS, p < 1e-9).",
+        "pools with prior-in-contour references (chi-square / KS, p < 1e-9); "
+        "with marginalise_augment the density of a candidate inside a mixed "
+        "batch must fall in the range of 199 estimates of the same candidate "
+        "(all 6 probes outside = violation, exact bound 1e-13).",
         "Contour check only for deterministic reparameterisations; "
         "statistical resolution fixed at 12000 vs 12000 points.",
         "DESIGN.md section 4, C09",
@@ -203,7 +208,9 @@ CHECKS = {
         "save_weights are listed by a probe run; the writer is killed before "
         "each operation, after the last, and after generated prefix lengths "
         "of the stream; a fresh process must resume to a state equal to the "
-        "previous or new checkpoint digest and finish. Quick 64 crash "
+        "previous or new checkpoint digest and finish; once a checkpoint "
+        "has completed, a killed later write must not make the next process "
+        "start afresh. Quick 64 crash "
         "points, thorough all (~400).",
         "Process death, not power loss; names os/shutil/open/torch are "
         "substituted only in the namespaces of nessai.utils.io and "
@@ -217,7 +224,9 @@ CHECKS = {
         RUNS + "Lines of the iteration-level functions of both samplers are "
         "read from the code objects, a probe run counts executions, the "
         "process signals itself just before the chosen execution; exit "
-        "status, resumability and count/shadow invariants are checked. "
+        "status, resumability and count/shadow invariants are checked, and "
+        "the resumed process must continue from the iteration of the signal "
+        "(importance sampler: from its last iteration-boundary checkpoint). "
         "Quick 48 schedules, thorough all (~1000).",
         "Line granularity; handler runs before the target line.",
         "DESIGN.md section 4, C13",
@@ -271,7 +280,10 @@ CHECKS = {
         "third in quick) and generated 2-4 option combinations for both "
         "samplers; outcome must be rejected-up-front or completed with "
         "valid results; late exceptions and unbounded pool populations "
-        "(> 2e6 latent draws in one population) are violations keyed by call site. Quick "
+        "(> 2e6 latent draws in one population) are violations keyed by call "
+        "site; all pairs of option values inside three option groups are "
+        "enumerated (365 pairs, a sixth per quick run); importance-sampler "
+        "cases carry the configured-stopping-rule monitor. Quick "
         "~85 runs, thorough ~700.",
         "Iteration cap on every case; wall-clock backstop = inconclusive.",
         "DESIGN.md section 4, C20",
